@@ -203,4 +203,17 @@ class MinesweeperH(Harness):
             R.prove(n_, A, v.term() if not v.conc else bool(v), replay=replay_for(n_))
 
 
+from jumanji.environments.logic.minesweeper.done import DoneFn as _DoneFn  # noqa: E402
+from jumanji.environments.logic.minesweeper.utils import is_solved as _is_solved, is_valid_action as _is_valid_action  # noqa: E402
+
+
+class MineTolerantDone(_DoneFn):
+    """a user-supplied DoneFn (the constructor's `done_function` hook): the episode goes on after a mine was revealed and stops only on
+    an invalid action or when the board is solved.  Step type follows it; a MID step must then still carry a non-zero discount."""
+
+    def __call__(self, state, next_state, action):
+        return ~_is_valid_action(state=state, action=action) | _is_solved(next_state)
+
+
+MinesweeperH.C03_VARIANTS = [{"done_function": MineTolerantDone()}]
 MinesweeperH.REWARD_VARIANTS = [{}, {"reward_function": MinesweeperH._custom_rewards()}]
